@@ -168,3 +168,15 @@ def an_framing(sub, payload, unit, tag, res):
             sub.prove(f"{pid}/{pth[0]}/starts-after-previous", base + adm, as_int_term(start) == as_int_term(prev_end),
                       function=fn, kind="post")
         prev_end = end
+
+
+# ---------------------------------------------------------------------------------------------------
+# frame: no write to state that outlives the call (module-level declarations, tables, defaults)
+# ---------------------------------------------------------------------------------------------------
+def an_frame(sub, payload, unit, tag, res):
+    from pyvc import frame
+
+    it = res.extra["it"]
+    writes = frame.shared_state_writes(it, payload.get("_shared"))
+    sub.decided(f"{payload['prop']}/{unit}/{tag}/no-write-to-shared-state", not writes, function=_fn(unit), kind="frame",
+                backend="effect-log", detail={"writes": writes[:5], "effects_logged": len(it.effects)})
